@@ -14,7 +14,7 @@ from vf import history, reader
 from vf.common import CaseResult, Check, Scratch, rng_for
 from vf.interpose import GlobalPatch, Interposer, patch_datetime
 
-ALPHABET = ["append", "append", "append", "multi", "delete", "delete", "prebuilt", "delete_append", "expire", "expire",
+ALPHABET = ["append", "append", "append", "multi", "raced", "raced", "delete", "delete", "prebuilt", "delete_append", "expire", "expire",
             "delsnap", "delsnap", "retention", "prevmax", "reopen", "fail_commit"]
 DANGLING = 99
 
@@ -62,16 +62,17 @@ class C15(Check):
         "for cyclic (non-forest) parent maps only termination and 'result is kept or nothing' are demanded",
     ]
     require = {"steps_checked": 200, "repoint_cases": 10000, "rewritten_entries_checked": 5,
-               "steps_with_removed_snapshot": 20}
+               "steps_with_removed_snapshot": 20, "commits_retried_after_lost_race": 10, "double_registrations": 2}
 
     def gen_cases(self, tier: str, seed: int):
         n = 96 if tier == "quick" else 1200
         for i in range(n):
             yield {"kind": "hist", "i": i, "seed": seed,
-                   "clock": ["real", "coarse", "backwards", "frozen"][i % 4]}
+                   "clock": ["real", "coarse", "backwards", "frozen", "stepback"][i % 5]}
         for stored in ("lead", "nolead"):
             for spelled in ("same", "lead", "nolead"):
-                yield {"kind": "delete_spelling", "stored": stored, "delete": spelled}
+                for registered in (1, 2):
+                    yield {"kind": "delete_spelling", "stored": stored, "delete": spelled, "registered": registered}
         nmax = 4 if tier == "quick" else 5
         for n_nodes in range(1, nmax + 1):
             options = [None, -1, DANGLING] + list(range(n_nodes))
@@ -102,6 +103,18 @@ class C15(Check):
                     h.observe(op, True)
                     if op[0] == "prebuilt":
                         stored = out["spelled"]
+                if case.get("registered", 1) == 2:
+                    # the same data file registered a second time by a later commit (a second manifest names it)
+                    from datashard.data_structures import DataFile, FileFormat
+                    e = next(e["data_file"] for e in h.last_view.current().entries
+                             if reader.norm(e["data_file"]["file_path"]) == reader.norm(stored))
+                    with h.table.new_transaction() as tx:
+                        tx.append_files([DataFile(file_path=stored, file_format=FileFormat.PARQUET, partition_values={},
+                                                  record_count=e["record_count"], file_size_in_bytes=e["file_size_in_bytes"],
+                                                  checksum=e.get("checksum"))])
+                        tx.commit()
+                    h.observe(("append_files-again", stored), True)
+                    res.count("double_registrations")
                 before = h.last_view.current()
                 norm = reader.norm(stored)
                 victim = {"same": stored, "lead": "/" + norm, "nolead": norm}[case["delete"]]
@@ -111,11 +124,11 @@ class C15(Check):
                 tv = h.observe(("delete", victim), True)
                 res.evals += 1
                 res.count("deletes_checked")
-                res.key(["delete_spelling", case["stored"], case["delete"]])
+                res.key(["delete_spelling", case["stored"], case["delete"], case.get("registered", 1)])
                 after = set(tv.current().files)
                 want = set(before.files) - {norm}
                 if after != want:
-                    res.violation(f"delete-not-exact:stored-{case['stored']}:request-{case['delete']}",
+                    res.violation(f"delete-not-exact:stored-{case['stored']}:request-{case['delete']}" + (":registered-twice" if case.get("registered", 1) == 2 else ""),
                                   f"delete_files([{victim!r}]) on an entry stored as {stored!r} left {sorted(after)}, expected {sorted(want)}",
                                   {"stored": stored, "request": victim})
         finally:
@@ -193,6 +206,8 @@ class C15(Check):
                 for step, op in enumerate(ops):
                     before = h.last_view
                     out = h.apply(op)
+                    if out.get("raced") and out["ok"]:
+                        res.count("commits_retried_after_lost_race")
                     tv = h.observe(op, out["ok"])
                     res.count("steps_checked")
                     res.evals += 1
